@@ -116,6 +116,7 @@ structure Net where
   insts : List Inst
   localparams : List (String × TypeRef × Expr)     -- of the top module
   pkgParams : List (String × TypeRef × Expr)
+  topStructs : List (String × List (TypeRef × String)) := []   -- struct typedefs of the top module
 
 /-! ### helpers on expressions -/
 
@@ -269,6 +270,7 @@ def Net.ofSv (pkg : Package) (top : Module) : Except String Net := do
   let mut assigns : List (SigRef × SigRef) := []
   let mut insts : List Inst := []
   let mut lps : List (String × TypeRef × Expr) := []
+  let mut structs : List (String × List (TypeRef × String)) := []
   for it in top.items do
     match it with
     | .decl t n =>
@@ -278,12 +280,13 @@ def Net.ofSv (pkg : Package) (top : Module) : Except String Net := do
     | .assign l r => assigns := assigns ++ [(SigRef.ofExpr l, SigRef.ofExpr r)]
     | .inst m ps n bs => insts := insts ++ [{ mod := m, name := n, params := ps, binds := bs }]
     | .localparam t n v => lps := lps ++ [(n, t, v)]
-    | .typedefStruct _ _ => pure ()
+    | .typedefStruct fs nm => structs := structs ++ [(nm, fs)]
     | _ => throw "unsupported item in top module"
   let pkgParams := pkg.items.filterMap fun
     | .localparam t n v => some (n, t, v)
     | _ => none
   return { pkg, top, epEnum, samIdxEnum, idType, routeBits, aw, samNumRules, samDeclared, sam,
-           routingTables, routeCfg, decls, assigns, insts, localparams := lps, pkgParams }
+           routingTables, routeCfg, decls, assigns, insts, localparams := lps, pkgParams,
+           topStructs := structs }
 
 end FlooVerif
